@@ -137,6 +137,31 @@ theorem select_sorted_in_range (r : Ring) (s a : Nat) (c : List Nat) (start stop
     simp only [hw, List.mem_filter, inRange, Bool.and_eq_true, decide_eq_true_eq] at hx
     exact hx.2
 
+/-- `Select` as a whole: series strictly ascending (= sorted by series labels, each once); and every
+    returned entry of a series with a well-formed list is exactly that series' stored exemplars in
+    `[start, stop]`, non-empty, time-sorted. -/
+theorem select_result (r : Ring) (start stop : Int) (sel : Nat → Bool) :
+    ((select r start stop sel).map (·.1)).Pairwise (· < ·) ∧
+    ∀ s xs c, (s, xs) ∈ select r start stop sel → ChainOK r s c →
+      sel s = true ∧ xs ≠ [] ∧
+      xs = (c.map fun i => (r.getN i).ex).filter (inRange start stop) ∧
+      (xs.map (·.ts)).Pairwise (· ≤ ·) ∧ (∀ x ∈ xs, start ≤ x.ts ∧ x.ts ≤ stop) := by
+  refine ⟨select_series_ascending r start stop sel, ?_⟩
+  intro s xs c hmem hc
+  obtain ⟨hsel, hne, ie, hie, hxs⟩ := select_mem r start stop sel s xs hmem
+  cases c with
+  | nil => have := hc.index; simp [hie] at this
+  | cons a t =>
+    have hidx := hc.index
+    simp only [hie, reduceCtorEq, if_false, List.head?_cons, Option.some.injEq] at hidx
+    have hold : ie.oldest = some a := by rw [hidx]
+    rw [hold] at hxs
+    have := select_sorted_in_range r s a t start stop hc
+    simp only [] at this
+    change xs = walk r start stop (r.exs.length + 1) (r.getN a) at hxs
+    rw [← hxs] at this
+    exact ⟨hsel, hne, this.1, this.2.1, this.2.2⟩
+
 /-- `select_sorted_in_range` is not vacuous: the list of series 0 after two adds. -/
 example : ChainOK (add (add (Ring.new 3 0) 0 ⟨3, 0, true, "-", 0⟩).1 0 ⟨5, 0, true, "-", 0⟩).1 0 [0, 1] := by
   refine ⟨by decide, ?_, by simp only [LinkedFrom]; decide, by decide, by decide⟩
